@@ -85,6 +85,13 @@ fn main() {
 
 fn child(p: &Program, pb: usize, timeouts: usize) {
     util::silence_panics();
+    // loom failures can end in a double panic (abort): leave the first message on stderr for the parent
+    let prev = std::panic::take_hook();
+    std::panic::set_hook(Box::new(move |info| {
+        let msg = if let Some(s) = info.payload().downcast_ref::<&str>() { s.to_string() } else if let Some(s) = info.payload().downcast_ref::<String>() { s.clone() } else { String::new() };
+        eprintln!("PANIC-MESSAGE {}", msg.replace('\n', " "));
+        prev(info);
+    }));
     let t0 = clock::wall_s();
     let obs = std::sync::Arc::new(programs::Obs::default());
     let obs2 = obs.clone();
@@ -180,6 +187,13 @@ fn parent(family: &str, tier: &str, progs: &[Program], merge: Option<String>) ->
         if let Some(line) = so.lines().find(|l| l.starts_with("RESULT ")) {
             if let Ok(v) = serde_json::from_str::<Value>(&line[7..]) {
                 return (i, k, Ok(v));
+            }
+        }
+        // an abort inside loom: the first panic message tells what loom found
+        if let Some(line) = se.lines().find(|l| l.starts_with("PANIC-MESSAGE ")) {
+            let msg = line[14..].to_string();
+            if msg.to_lowercase().contains("deadlock") || msg.contains("ORACLE: ") {
+                return (i, k, Ok(json!({"ok": false, "failure": msg, "schedules": 0, "outcomes": 0})));
             }
         }
         let tail: String = se.lines().rev().take(8).collect::<Vec<_>>().into_iter().rev().collect::<Vec<_>>().join(" | ");
